@@ -377,6 +377,33 @@ fn run_direct(out: &mut Out, n: usize, edges: &[(u32, u32)], forced: u8, script:
     let code = enc_code(idx.encoding());
     out.count(["enc_nested", "enc_chain", "enc_near"][code as usize]);
     let brute = Brute::new(n, edges);
+    if code == 2 {
+        // generator health for the near-tree exception search: is there a pair (x, y) with x below y
+        // only through >= 2 chained exception edges (non-first-parent edges)?
+        let mut first: Vec<Option<u32>> = vec![None; n];
+        let mut forest: Vec<(u32, u32)> = Vec::new();
+        let mut exc: Vec<(u32, u32)> = Vec::new();
+        for &(c, p) in edges {
+            if forest.contains(&(c, p)) || exc.contains(&(c, p)) {
+                continue;
+            }
+            if first[c as usize].is_none() {
+                first[c as usize] = Some(p);
+                forest.push((c, p));
+            } else {
+                exc.push((c, p));
+            }
+        }
+        let f = Brute::new(n, &forest);
+        let one = |x: usize, y: usize| exc.iter().any(|&(c, q)| f.reach[x][c as usize] && f.reach[q as usize][y]);
+        let chained = (0..n).any(|x| (0..n).any(|y| brute.reach[x][y] && !f.reach[x][y] && !one(x, y)));
+        if !exc.is_empty() {
+            out.count("near_with_exceptions");
+        }
+        if chained {
+            out.count("near_chained_exceptions");
+        }
+    }
     let mut measure: Option<Vec<Option<i64>>> = None;
     let mut built_ops: Vec<RollupOp> = Vec::new();
     let mut gs: Vec<String> = Vec::new();
@@ -552,6 +579,39 @@ fn gen_layered(n: usize, r: &mut Rng) -> Vec<(u32, u32)> {
             let p = (up * width + r.below(width as u64) as usize) as u32;
             if !e.contains(&(i as u32, p)) {
                 e.push((i as u32, p));
+            }
+        }
+    }
+    e
+}
+
+/// Several disjoint paths ("branches"); a node of branch j gets an extra (non-first) parent in branch
+/// j+1, so a node of branch 0 reaches branch k only through k chained exception edges.
+fn gen_exception_ladder(n: usize, r: &mut Rng) -> Vec<(u32, u32)> {
+    let b = r.range(3, 5) as usize;
+    let mut branches: Vec<Vec<u32>> = vec![Vec::new(); b];
+    for v in 0..n as u32 {
+        branches[(v as usize) % b].push(v);
+    }
+    let mut e = Vec::new();
+    // forest edges first: they stay the first parents
+    for br in &branches {
+        for w in br.windows(2) {
+            e.push((w[1], w[0]));
+        }
+    }
+    for j in 0..b - 1 {
+        for _ in 0..r.range(1, 2) {
+            if branches[j].len() < 2 || branches[j + 1].len() < 2 {
+                continue;
+            }
+            // the second node of branch j has a forest parent (so this edge is an exception) and is above
+            // everything that entered the branch below the root, so the hops chain
+            let c = if j == 0 { *r.pick(&branches[j][1..]) } else { branches[j][1] };
+            let q = *r.pick(&branches[j + 1][1..]);
+            // keep the relation acyclic: only edges from branch j up into branch j+1
+            if !e.contains(&(c, q)) {
+                e.push((c, q));
             }
         }
     }
@@ -1043,6 +1103,22 @@ fn main() {
             big_script(n, &mut r, args.thorough)
         };
         run_direct(&mut out, n, &edges, f, &script, shape, seed, k % 3 == 0);
+    }
+    // 3b. exception ladders (near-tree forced): reachability through chained exception edges
+    let nl = if args.thorough { 400 } else { 60 };
+    for k in 0..nl {
+        let mut r = Rng::for_case(seed ^ 0x1ADD, k);
+        let n = r.range(6, if args.thorough { 40 } else { 20 }) as usize;
+        let edges = gen_exception_ladder(n, &mut r);
+        // relabel nodes but keep the edge order (first parents stay the branch parents)
+        let mut perm: Vec<u32> = (0..n as u32).collect();
+        for i in (1..n).rev() {
+            let j = r.below(i as u64 + 1) as usize;
+            perm.swap(i, j);
+        }
+        let edges: Vec<(u32, u32)> = edges.iter().map(|&(c, p)| (perm[c as usize], perm[p as usize])).collect();
+        let script = big_script(n, &mut r, args.thorough);
+        run_direct(&mut out, n, &edges, 3, &script, "ladder", seed, k % 5 == 0);
     }
     // 4. manager histories
     let nm = if args.thorough { 1500 } else { 150 };
